@@ -141,18 +141,29 @@ def _workdir() -> str:
 
 
 def _cached_file(key: tuple, data_fn, suffix: str = ".bin"):
-    """(path, bytes) of a payload that is constant per process."""
+    """(path, content) of a payload that is a function of its key.  Built once per run: the file lives in a directory
+    shared by all worker processes and is never replaced once it exists (hard-link publication), so every process sees
+    the same bytes even if a builder were not deterministic."""
     ent = _P.get(key)
-    if ent is None:
+    if ent is not None:
+        return ent
+    shared = os.path.join(_S.get("work") or os.path.join(VERIF_DIR, ".work", "c14-adhoc"), "c14", "shared")
+    os.makedirs(shared, exist_ok=True)
+    final = os.path.join(shared, "pay_%s%s" % (hashlib.sha256(repr(key).encode()).hexdigest()[:20], suffix))
+    if not os.path.exists(final):
         data = data_fn()
-        if isinstance(data, str):
-            raw = data.encode("utf-8")
-        else:
-            raw = bytes(data)
-        path = os.path.join(_workdir(), "pay_%s%s" % (hashlib.sha256(repr(key).encode()).hexdigest()[:16], suffix))
-        with open(path, "wb") as f:
+        raw = data.encode("utf-8") if isinstance(data, str) else bytes(data)
+        tmp = "%s.%d.tmp" % (final, os.getpid())
+        with open(tmp, "wb") as f:
             f.write(raw)
-        ent = _P[key] = (path, data)
+        try:
+            os.link(tmp, final)
+        except FileExistsError:
+            pass
+        os.unlink(tmp)
+    with open(final, "rb") as f:
+        raw = f.read()
+    ent = _P[key] = (final, raw.decode("utf-8") if suffix == ".yaml" else raw)
     return ent
 
 
@@ -166,7 +177,7 @@ def _build(fn, what: str):
     (the label floors keep an emptied class from passing unnoticed)."""
     try:
         return fn()
-    except HarnessError:
+    except (HarnessError, SkipCase):
         raise
     except Exception as exc:  # noqa: BLE001
         _S.setdefault("build_errors", {}).setdefault(what, "%s: %s" % (type(exc).__name__, str(exc)[:200]))
@@ -647,11 +658,33 @@ def _subcases(i: int) -> list:
     return out
 
 
+N_BUCKETS = 16
+
+
 def _enum_items() -> list:
+    """All sub-cases of all tuples, ordered so that the runner's strided sharding (item i -> shard i mod n, n | 16) keeps
+    the tuples of one device in one worker (its payloads are built once)."""
     if "items" not in _S:
+        s = _state()
+        groups: dict = {}
+        rep = {members[0] for members in s["classes"]}
+        for i, t in enumerate(s["tuples"]):
+            cheap = "xmcd" not in s["tables"][i].names
+            for c in _subcases(i):
+                if "no_mt" not in c:
+                    c["no_mt"] = cheap or i in rep
+                groups.setdefault(t["dev"], []).append(c)
+        buckets: list = [[] for _ in range(N_BUCKETS)]
+        for dev in sorted(groups, key=lambda d: (-len(groups[d]), d)):
+            min(buckets, key=len).extend(groups[dev])
         items = []
-        for i in range(len(_state()["tuples"])):
-            items += _subcases(i)
+        k = 0
+        while any(buckets):
+            for b in range(N_BUCKETS):
+                src = buckets[b] if buckets[b] else max(buckets, key=len)
+                if src:
+                    items.append(src.pop(0))
+            k += 1
         _S["items"] = items
     return _S["items"]
 
@@ -742,41 +775,81 @@ def run_layout(case, o: Oracle) -> None:
     run_case(case, o)
 
 
-# ====================================================================== calibration of the layout reader
+# ====================================================================== stored images of an earlier release
+# (directory under fixtures/c14/golden, device, memory type, initial offset, image_version value, segment files,
+#  frozen copy of the segment table the image was made with)
+GOLDEN = [
+    ("rt595_xip_crc", "mimxrt595s", "flexspi_nor", 0, 4696, {"keyblob": "keyblob.bin", "fcb": "fcb.bin", "keystore": "keystore.bin", "mbi": "mbi.bin"},
+     {"segments": {"keyblob": 0x0, "fcb": 0x400, "image_version": 0x600, "keystore": 0x800, "mbi": 0x1000}}),
+    ("rt1189_no_xmcd", "mimxrt1189", "flexspi_nor", 0, None, {"fcb": "fcb.bin", "ahab_container": "ahab_container.bin"},
+     {"segments": {"keyblob": 0x0, "fcb": 0x400, "xmcd": 0x800, "ahab_container": 0x1000}}),
+    ("mcxn947_starting_fcb", "mcxn947", "flexspi_nor", 1024, 0, {"fcb": "fcb.bin", "mbi": "mbi.bin"},
+     {"segments": {"fcb": 0x400, "image_version_ap": 0x600, "mbi": 0x1000}, "image_pattern": "ones"}),
+    ("rt1064_bee", "mimxrt1064", "flexspi_nor", 0, None, {"fcb": "fcb.bin", "bee_header_0": "bee_header_0.bin", "bee_header_1": "bee_header_1.bin",
+                                                       "hab_container": "hab_container.bin"},
+     {"segments": {"fcb": 0x0, "bee_header_0": 0x400, "bee_header_1": 0x800, "hab_container": 0x1000}}),
+]
+
+
+def _golden_files(g) -> tuple:
+    d = os.path.join(FIX, "golden", g[0])
+    pay = {}
+    for n, fn in g[5].items():
+        with open(os.path.join(d, fn), "rb") as f:
+            pay[n] = f.read()
+    with open(os.path.join(d, "merged_image.bin"), "rb") as f:
+        return d, pay, f.read()
+
+
 def calibrate(ctx) -> None:
-    """The layout reader reproduces stored bootable images of the test-suite from their stored segments (artifacts that
-    predate this check), so a misreading of the table format shows up here and not as a verdict."""
-    db = _state()["db"]
-    root = os.path.join(dbenum.REPO, "tests", "nxpimage", "data", "bootable_image")
-    samples = [
-        ("mimxrt595s", "flexspi_nor", "xip_crc", {"keyblob": "keyblob.bin", "fcb": "fcb.bin", "keystore": "keystore.bin", "mbi": "mbi.bin"}, 0),
-        ("mimxrt1189", "flexspi_nor", "no_xmcd", {"fcb": "fcb.bin", "ahab_container": "ahab_container.bin"}, 0),
-        ("mcxn947", "flexspi_nor", "starting_fcb", {"fcb": "fcb.bin", "mbi": "mbi.bin"}, 1024),
-    ]
-    done = 0
-    for dev, mt, sub, files, init in samples:
-        d = os.path.join(root, dev, mt, sub)
-        merged = os.path.join(d, "merged_image.bin")
-        if not os.path.isfile(merged) or dev not in db.devices:
-            continue
-        rev = db.devices[dev].latest
-        tab = L.Table(DBI.bimg_record(db, {"dev": dev, "rev": rev, "mt": mt}))
-        pay = {}
-        for n, fn in files.items():
-            with open(os.path.join(d, fn), "rb") as f:
-                pay[n] = f.read()
-        with open(merged, "rb") as f:
-            golden = f.read()
+    """The layout reader (placement, fill, initial offset, image-version words) reproduces bootable images stored by an
+    earlier release from their stored segments, using frozen copies of the tables they were made with: a misreading of
+    the format shows up here and not as a verdict."""
+    for g in GOLDEN:
+        _d, pay, golden = _golden_files(g)
+        tab = L.Table(g[6])
         for n in tab.names:
             if n in L.VALUE_SEGMENTS:
-                p = tab.static_offset(n) - init
-                pay[n] = golden[p : p + 4]  # the stored configuration's version word
-        placed = tab.place({n: len(b) for n, b in pay.items()}, tab.effective_init(init))
-        if placed.image(pay, tab.pattern) != golden:
-            raise HarnessError("calibration: layout reader does not reproduce %s (%s)" % (merged, _diff(placed.image(pay, tab.pattern), golden)))
-        done += 1
-    if done == 0:
-        raise HarnessError("calibration: no stored bootable image found under %s" % root)
+                pay[n] = L.image_version_bytes(n, g[4])
+        placed = tab.place({n: len(b) for n, b in pay.items()}, tab.effective_init(g[3]))
+        img = placed.image(pay, tab.pattern)
+        if placed.overlaps or img != golden:
+            raise HarnessError("calibration: layout reader does not reproduce fixtures/c14/golden/%s (%s)" % (g[0], _diff(img, golden)))
+        for n in placed.order():
+            v = L.parsed_view(n, placed, img)
+            if v is None or not (v == pay[n] or v.startswith(pay[n])):
+                raise HarnessError("calibration: reader view of %s in %s is wrong" % (n, g[0]))
+
+
+def _golden_count(tier: str) -> int:
+    return len(GOLDEN)
+
+
+def run_golden(case, o: Oracle) -> None:
+    """Regression anchor: merging the stored segments reproduces the image an earlier release made from them (pins the
+    database offsets and fill patterns of these devices to artifacts that predate the tree under test)."""
+    g = next((x for x in GOLDEN if x[0] == case["golden"]), None)
+    if g is None:
+        raise HarnessError("unknown golden %r" % (case,))
+    d, pay, golden = _golden_files(g)
+    db = _state()["db"]
+    if g[1] not in db.devices:
+        raise SkipCase()
+    cfg = {"family": g[1], "revision": "latest", "memory_type": g[2], "init_offset": g[3]}
+    if g[4] is not None:
+        cfg["image_version"] = g[4]
+    for n, fn in g[5].items():
+        cfg[L.CFG_KEY.get(n, n)] = os.path.join(d, fn)
+    o.label("golden", "mt:" + g[2])
+    o.nontrivial(True)
+    o.key(("golden", g[0]))
+    o.sample({"golden": g[0], "segments": sorted(pay)})
+    with o.spsdk("golden", "merge"):
+        from spsdk.image.bootable_image.bimg import BootableImage
+
+        data = bytes(BootableImage.load_from_config(cfg, search_paths=[d]).image_info().export())
+        o.check("golden", data == golden, "stored_image", "%s/%s: merging the stored segments of fixtures/c14/golden/%s differs from the stored image: %s" % (
+            g[1], g[2], g[0], _diff(data, golden)))
 
 
 # ====================================================================== parts
@@ -796,6 +869,7 @@ def parts(ctx):
     except Exception:  # noqa: BLE001 - a broken tree shows up as failures of the cases, not here
         pass
     return [
+        EnumPart("golden", _golden_count, lambda tier, i: {"golden": GOLDEN[i][0]}, run_golden),
         EnumPart("tuples", _enum_count, _enum_item, run_case),
         HypPart("layouts", _layout_strategy, run_layout, {"quick": 1600, "thorough": 60000}),
     ]
